@@ -232,7 +232,7 @@ impl Property for C10 {
             .boxed()
     }
     fn cases(tier: Tier) -> u32 {
-        tier.pick(6_000, 100_000)
+        tier.pick(30_000, 150_000)
     }
     fn exhaustive(_tier: Tier, sink: &mut dyn FnMut(Scenario)) -> Vec<String> {
         let mut n = 0;
